@@ -20,7 +20,8 @@ RULE = ("for each scenario (version x flavour x {ideal, 1-byte} transport x "
         "to the data records.  distinct = (scenario, endpoint, kind, index, "
         "fault); non-trivial = the planned fault actually fired inside an "
         "operation (or the alert was delivered)"
-        " Family dead_peer: the peer died after sending a fatal alert (or data); this endpoint's next send (application data, KeyUpdate, post-handshake CertificateRequest, ClientHello) fails with EPIPE/ECONNRESET while the alert is readable / lost / replaced by data: the call raises, the alert (when readable and the record is handshake-type) surfaces as TLSRemoteAlert, the connection is closed and not resumable.")
+        " Family dead_peer: the peer died after sending a fatal alert (or data); this endpoint's next send (application data, KeyUpdate, post-handshake CertificateRequest, ClientHello) fails with EPIPE/ECONNRESET while the alert is readable / lost / replaced by data: the call raises, the alert (when readable and the record is handshake-type) surfaces as TLSRemoteAlert, the connection is closed and not resumable."
+        ' Under ignoreAbruptClose only a missing close_notify (EOF) may be ignored, a reset must raise.')
 LEVEL_TEXT = ("Fault enumeration: exhaustive over the socket-call index space "
               "of the listed scenarios on the ideal transport (and in the "
               "thorough tier also on the 1-byte transport), one fault per "
